@@ -136,6 +136,7 @@ func runC15(c *Ctx) {
 		c.R.Floor("C15.append", p.Cfg.Name, n, 90)
 		ruleEndian(c, p)
 		ruleGrowByAppend(c, p)
+		ruleReaderSource(c, p, "C15.source")
 	}
 	c.R.Assumptions = append(c.R.Assumptions,
 		"the unsafe variants reinterpret []T as []byte on little-endian targets only (build constraint), so memory layout = wire layout there",
@@ -159,6 +160,41 @@ func ruleEndian(c *Ctx, p *core.Program) {
 		}
 		for _, call := range core.Calls(fn) {
 			f := core.CalleeFunc(call)
+			// a multi-word helper built from a narrower helper: binUInt256 = {binUInt128(b[0:]), binUInt128(b[16:])}
+			if f != nil && strings.HasPrefix(fn.Name(), "bin") && strings.HasPrefix(f.Name(), "bin") && f.Pkg() != nil && f.Pkg().Path() == core.PkgProto {
+				args := call.Common().Args
+				var sl *ssa.Slice
+				var val ssa.Value
+				for _, a := range args {
+					if x, ok := a.(*ssa.Slice); ok {
+						sl = x
+					} else {
+						val = a
+					}
+				}
+				if sl != nil {
+					lo := int64(0)
+					if sl.Low != nil {
+						lo, _ = core.ConstInt(sl.Low)
+					}
+					off := int64(-1)
+					if strings.HasPrefix(f.Name(), "binPut") && val != nil {
+						off = fieldPathOffset(sizes, val)
+					} else if cl, ok := call.(*ssa.Call); ok {
+						off = storedFieldOffset(sizes, cl)
+					}
+					if off >= 0 {
+						nWord++
+						key := core.CallKey(fn, call)
+						if off == lo {
+							c.R.Ok(rule, key, cfg, p.Pos(call.Pos()), sprintf("half at struct offset %d <-> bytes [%d:]", off, lo))
+						} else {
+							c.R.Bad(rule, key, cfg, p.Pos(call.Pos()), sprintf("the half at in-memory offset %d is read from / written to bytes starting at %d: the pure-Go image differs from the memory image (limbs taken from the wrong place)", off, lo))
+						}
+					}
+				}
+				continue
+			}
 			if f == nil || f.Pkg() == nil || f.Pkg().Path() != "encoding/binary" {
 				continue
 			}
